@@ -211,6 +211,20 @@ impl C07 {
             (a, b)
         };
         let empty: BTreeMap<String, ArgValue> = BTreeMap::new();
+        // decoys: keys that differ from the template's parameter names in letter case only, with other values;
+        // whatever they mean to apply_args, it must not depend on whether they arrive before, after or with
+        // the real arguments
+        let decoys: BTreeMap<String, ArgValue> = args
+            .iter()
+            .map(|(k, v)| {
+                (k.to_uppercase(), match v {
+                    ArgValue::Int(n) => ArgValue::Int(n + 1 + rng.below(3) as i128),
+                    _ => ArgValue::Bytes(vec![0xdd; 3]),
+                })
+            })
+            .collect();
+        let mut both = args.clone();
+        both.extend(decoys.clone());
         // (name, [reduce first?, args1, reduce between?, args2])
         let schedules: Vec<(&str, bool, &BTreeMap<String, ArgValue>, bool, &BTreeMap<String, ArgValue>)> = vec![
             ("args,R", false, &args, false, &empty),
@@ -219,6 +233,10 @@ impl C07 {
             ("args[2/2],R,args[1/2],R", false, &second, true, &first),
             ("R,args[1/2],R,args[2/2],R", true, &first, true, &second),
             ("args[1/2],args[2/2],R", false, &first, false, &second),
+            ("decoys,args,R", false, &decoys, false, &args),
+            ("args,decoys,R", false, &args, false, &decoys),
+            ("decoys,R,args,R", false, &decoys, true, &args),
+            ("args+decoys,R", false, &both, false, &empty),
         ];
         let mut outcomes: Vec<(&str, Result<Vec<u8>, String>)> = vec![];
         for (name, r0, a1, r1, a2) in &schedules {
@@ -276,7 +294,7 @@ impl Property for C07 {
         "C07"
     }
     fn rule(&self) -> String {
-        "for every tx of generated programs (all core features; compiler built-ins over literals and over parameters; every third template built from asset atoms in which exactly one of policy / name / amount is a parameter) and one in-range world: all 24 orders of the stages {args, inputs, fees, compiler-ops} x all 32 subsets of reduce placements (initially and after each stage) x {arguments applied at once, arguments applied in two instalments with a reduction in between}, followed by a final reduce; a schedule is admissible when the compiler-op stage comes after the stages its operands depend on (known from the generator: after `args` when a built-in has a parameter operand). Oracle: the canonical form (map entries, UtxoSet and Assets lists sorted) of the fully reduced template and the independently decoded compiled transaction are identical across all admissible schedules; reduce(reduce(t)) = reduce(t) after every reduction performed. trees: random *typed, evaluable* IR expressions (integer arithmetic, list / map / tuple lookups with parameter keys and indices, byte concatenation, asset arithmetic with parameter policies / names / amounts; small value domains so that keys collide) under six ways of feeding the arguments (at once, after an initial reduction, in two instalments in either order with a reduction in between); all must end in the same reduced template or all in an error, and reduce must be idempotent. Non-trivial: the template uses >= 3 of {params, inputs-as-values, fees, compiler ops}; distinct = distinct (source, world).".into()
+        "for every tx of generated programs (all core features; compiler built-ins over literals and over parameters; every third template built from asset atoms in which exactly one of policy / name / amount is a parameter) and one in-range world: all 24 orders of the stages {args, inputs, fees, compiler-ops} x all 32 subsets of reduce placements (initially and after each stage) x {arguments applied at once, arguments applied in two instalments with a reduction in between}, followed by a final reduce; a schedule is admissible when the compiler-op stage comes after the stages its operands depend on (known from the generator: after `args` when a built-in has a parameter operand). Oracle: the canonical form (map entries, UtxoSet and Assets lists sorted) of the fully reduced template and the independently decoded compiled transaction are identical across all admissible schedules; reduce(reduce(t)) = reduce(t) after every reduction performed. trees: random *typed, evaluable* IR expressions (integer arithmetic, list / map / tuple lookups with parameter keys and indices, byte concatenation, asset arithmetic with parameter policies / names / amounts; small value domains so that keys collide) under ten ways of feeding the arguments (at once, after an initial reduction, in two instalments in either order with a reduction in between, and with a batch of decoy keys - the parameter names in upper case with other values - before, after or together with the real arguments); all must end in the same reduced template or all in an error, and reduce must be idempotent. Non-trivial: the template uses >= 3 of {params, inputs-as-values, fees, compiler ops}; distinct = distinct (source, world).".into()
     }
     fn assumptions(&self) -> Vec<String> {
         vec![
